@@ -154,10 +154,121 @@ class PartAllocation(Harness):
         before, after = native.unhx(r[1][0]), native.unhx(r[1][1])
         return before != after, 'four sheets with one comment each, lazily read, sheets %r left untouched and the others touched: comments before %r, after save and reload %r' % (ex, before, after)
 
+BOOKT = 'structs::spreadsheet::Spreadsheet::'
+class WorkbookPart(Harness):
+    """sheet list, order, names, visibility, active sheet and the owner of every defined name through xl/workbook.xml"""
+    name = 'workbook_part.write_read'; property_id = 'C06'
+    entry = ['writer::xlsx::workbook::write', 'reader::xlsx::workbook::read', 'structs::defined_name::DefinedName::write_to', 'structs::defined_name::DefinedName::set_attributes', 'structs::workbook_view::WorkbookView::write_to']
+    classes = {}
+    def __init__(self, tier):
+        self.doc = 'a real Spreadsheet with two sheets (names of one symbolic character, symbolic visibility), a symbolic active tab and one defined name whose owner (workbook, first or second sheet; with or without localSheetId) and referenced sheet are symbolic, written by the real writer::xlsx::workbook::write into an XML event stream and read back by the real reader::xlsx::workbook::read (zip entry replaced by the recorded events): same sheets in the same order with the same names and visibility, same active tab, and the defined name is owned by the same sheet (or the workbook) with the same address'
+        self.bounds = {'sheets': 2, 'name_alphabet': ['a', 'b', '&', ' ', 'e-acute'], 'states': 'SheetStateValues (all) or unset', 'active_tab': [0, 1], 'defined_names': 1, 'owner': ['workbook', 'sheet 0', 'sheet 1'], 'refers_to_sheet': [0, 1], 'local_sheet_id': ['unset', 'set to the owner index']}
+    def setup(self, it):
+        from engine import xmlmodel, cryptomodel as cm
+        cm.install(it); cm.install_digests(it); xmlmodel.install(it); xmlmodel.install_events(it)
+    def snapshot(self, it, book):
+        sheets = deref_all(it.call(BOOKT + 'get_sheet_collection_no_check', [Ref(book)]))
+        out = []
+        for i in range(len(sheets)):
+            ws = Ref(book.__class__(sheets[i])) if False else it.call(BOOKT + 'get_sheet', [Ref(book), iref(i)]).fields[0]
+            nm = deref_all(it.call(WS + 'get_name', [ws])).chars
+            st = deref_all(it.call(WS + 'get_state', [ws])).variant
+            dns = [(deref_all(it.call('structs::defined_name::DefinedName::get_name', [Ref(Box_(d))])).chars, deref_all(it.call('structs::defined_name::DefinedName::get_address', [Ref(Box_(d))])).chars) for d in deref_all(it.call(WS + 'get_defined_names', [ws]))]
+            out.append((nm, st, dns))
+        top = [(deref_all(it.call('structs::defined_name::DefinedName::get_name', [Ref(Box_(d))])).chars, deref_all(it.call('structs::defined_name::DefinedName::get_address', [Ref(Box_(d))])).chars) for d in deref_all(it.call(BOOKT + 'get_defined_names', [Ref(book)]))]
+        tab = deref_all(it.call('structs::workbook_view::WorkbookView::get_active_tab', [it.call(BOOKT + 'get_workbook_view', [Ref(book)])]))
+        return out, top, tab
+    def run(self, it, ctx, res):
+        from engine import xmlmodel
+        from harness.c12 import install_writer_stubs, Parts
+        from harness.c17 import chars_eq
+        from harness.rt import conj
+        it.world = cm_world()
+        alpha = [97, 98, 38, 32, 0xE9]
+        n0 = ctx.sym_int('name0', 32, 0xE9); n1 = ctx.sym_int('name1', 32, 0xE9)
+        for c in (n0, n1): ctx.define(z3.Or(*[c == a for a in alpha]))
+        ctx.assume(n0 != n1)
+        states = []
+        for i in range(2):
+            si = ctx.sym_int('state%d' % i, 0, 3); states.append(next(k for k in range(4) if ctx.branch(si == k)))
+        tab = ctx.sym_int('active_tab', 0, 1)
+        owner = ctx.sym_int('owner', 0, 2); owner = next(k for k in range(3) if ctx.branch(owner == k))          # 0 = workbook
+        refers = 0 if ctx.branch(ctx.sym_bool('refers_to_first')) else 1
+        local = owner != 0 and ctx.branch(ctx.sym_bool('local_sheet_id'))
+        info = {'states': states, 'owner': owner, 'refers': refers, 'local': local}
+        captured = []
+        try:
+            book = Box_(it.call('<structs::spreadsheet::Spreadsheet as std::default::Default>::default', []))
+            for i, c in enumerate((n0, n1)):
+                r = it.call(BOOKT + 'new_sheet::<&str>', [Ref(book), sref(SStr([c]))])
+                if r.variant != 0: return 'sheet name rejected'
+                if states[i] < 3: it.call(WS + 'set_state', [r.fields[0], Adt(states[i], [], 'SheetStateValues')])
+            it.call('structs::workbook_view::WorkbookView::set_active_tab', [it.call(BOOKT + 'get_workbook_view_mut', [Ref(book)]), tab])
+            dn = Box_(it.call('<structs::defined_name::DefinedName as std::default::Default>::default', []))
+            it.call('structs::defined_name::DefinedName::set_name::<&str>', [Ref(dn), sref('N')])
+            # the address names the referenced sheet: 'x'!$A$1 with the sheet's (symbolic) name, quoted
+            addr = [39, (n0, n1)[refers], 39] + [ord(ch) for ch in '!$A$1']
+            it.call('structs::defined_name::DefinedName::set_address::<&str>', [Ref(dn), sref(SStr(addr))])
+            if local: it.call('structs::defined_name::DefinedName::set_local_sheet_id', [Ref(dn), owner - 1])
+            if owner == 0: it.call(BOOKT + 'add_defined_names', [Ref(book), dn.v])
+            else: it.call(WS + 'add_defined_names', [it.call(BOOKT + 'get_sheet_mut', [Ref(book), iref(owner - 1)]).fields[0], dn.v])
+            before = self.snapshot(it, book)
+            pats = [(re.compile(r'quick_xml::Writer::<.*>::new'), lambda it_, callee, *a: xmlmodel.Recorder()),
+                    (re.compile(r"quick_xml::events::BytesDecl::<'_>::new"), lambda it_, callee, *a: 'DECL'),
+                    (re.compile(r'std::io::Cursor::<.*>::new'), lambda it_, callee, v: v),
+                    (re.compile(r'writer::driver::write_new_line::<.*>'), lambda it_, callee, *a: []),
+                    (re.compile(r'structs::writer_manager::WriterManager::<.*>::add_writer(::<.*>)?'), lambda it_, callee, wm, path, writer: (captured.append(deref_all(writer)), OK([]))[1])]
+            it.stub_patterns = pats
+            r = it.call('writer::xlsx::workbook::write::<std::io::Cursor<std::vec::Vec<u8>>>', [Ref(book), Ref(Box_('WRITERMNG'))])
+            if r.variant != 0 or len(captured) != 1: self.fail(ctx, res, 'workbook-part-written', 'no part', info=info); return
+            evs = [e for e in captured[0].events if (e.variant if isinstance(e.variant, str) else xmlmodel.event_order()[e.variant]) != 'Decl']
+            it.stub_patterns = [
+                (re.compile(r'zip::(read::)?(<impl zip::ZipArchive<.*>>|ZipArchive::<.*>)::by_name'), lambda it_, callee, *a: OK('ZIPENTRY')),
+                (re.compile(r'std::io::BufReader::<.*>::new'), lambda it_, callee, x: x),
+                (re.compile(r'quick_xml::Reader::<.*>::from_reader'), lambda it_, callee, x: xmlmodel.XmlReader(evs, trim=True)),
+            ]
+            rr = it.call('reader::xlsx::workbook::read::<std::io::Cursor<std::vec::Vec<u8>>>', [Ref(Box_('ZIPARCHIVE'))])
+            if rr.variant != 0: self.fail(ctx, res, 'workbook-part-read', 'Err', info=info); return
+            after = self.snapshot(it, Box_(rr.fields[0]))
+        except Panic as e:
+            self.fail(ctx, res, 'no-panic', str(e), info=info); return
+        finally:
+            it.stub_patterns = []
+        (sb, tb, tabb), (sa, ta, taba) = before, after
+        self.oblige(ctx, res, 'same-number-of-sheets', len(sa) == len(sb), info=info)
+        if len(sa) != len(sb): return
+        eqs = lambda x, y: (len(x) == len(y)) and (chars_eq(x, y) if x else True)
+        def same_names(x, y):
+            if len(x) != len(y): return False
+            return conj([conj([eqs(a[0], b[0]), eqs(a[1], b[1])]) for a, b in zip(x, y)])
+        for i in range(len(sb)):
+            self.oblige(ctx, res, 'same-sheet-name-at-same-position', eqs(sa[i][0], sb[i][0]), info=dict(info, sheet=i))
+            self.oblige(ctx, res, 'same-visibility', sa[i][1] == sb[i][1], info=dict(info, sheet=i, before=sb[i][1], after=sa[i][1]))
+        # a name without localSheetId is kept with the sheet its address names or with the workbook (the library files it under the
+        # sheet on load): what must not change is the set of names with their addresses, and the owner of a name that has a localSheetId
+        allb = [x for i in range(len(sb)) for x in sb[i][2]] + list(tb); alla = [x for i in range(len(sa)) for x in sa[i][2]] + list(ta)
+        self.oblige(ctx, res, 'same-defined-names-with-same-addresses', same_names(alla, allb), info=dict(info, before=len(allb), after=len(alla)))
+        if local:
+            self.oblige(ctx, res, 'name-with-localSheetId-stays-with-its-sheet', same_names(sa[owner - 1][2], sb[owner - 1][2]), info=dict(info, sheet=owner - 1, before=len(sb[owner - 1][2]), after=len(sa[owner - 1][2])))
+        self.oblige(ctx, res, 'same-active-tab', taba == tabb, info=dict(info, before=str(tabb), after=str(taba)))
+    def case_of(self, v):
+        m = v['model']
+        c = {'names': [chr(m['name0']), chr(m['name1'])], 'states': [m.get('state0', 3), m.get('state1', 3)], 'active_tab': m.get('active_tab', 0), 'owner': m.get('owner', 0), 'refers': 0 if m.get('refers_to_first') else 1,
+             'local': bool(m.get('local_sheet_id')) and m.get('owner', 0) != 0, 'oblig': v['oblig']}
+        c['show'] = dict(c); return c
+    def confirm(self, case, profile):
+        r = native.run_cases([['workbook_part', case['names'][0], case['names'][1], case['states'][0], case['states'][1], case['active_tab'], case['owner'], case['refers'], case['local']]], profile, timeout_each=60)[0]
+        if r[0] != 'ok': return True, 'workbook %r -> %r' % (case['show'], r)
+        before, after = native.unhx(r[1][0]), native.unhx(r[1][1])
+        return before != after, 'workbook before save %r, after reload %r' % (before, after)
+def cm_world():
+    from engine import cryptomodel as cm
+    return cm.World()
+
 def harnesses(tier):
     from harness import rt
-    if tier == 'quick': return [Hyperlinks(tier), PartAllocation(tier)] + rt.harnesses_for('C06', tier)
+    if tier == 'quick': return [Hyperlinks(tier), PartAllocation(tier), WorkbookPart(tier)] + rt.harnesses_for('C06', tier)
     # thorough: additionally three external links under all iteration orders (6^6 orders; symbolic kinds for three links
     # would be 27 times that and did not finish in 15 minutes)
-    return [Hyperlinks(tier), Hyperlinks(tier, n=3, kinds=['url'], name='hyperlink.rid_pairing.3links'), PartAllocation(tier)] + rt.harnesses_for('C06', tier)
+    return [Hyperlinks(tier), Hyperlinks(tier, n=3, kinds=['url'], name='hyperlink.rid_pairing.3links'), PartAllocation(tier), WorkbookPart(tier)] + rt.harnesses_for('C06', tier)
 OPTIONS = {'want_smir': True}
